@@ -13,6 +13,21 @@ CLAIMED = {
    text="All ordered pairs of the duration lattice go through == != < <= > >= cmp partial_cmp min max and a+b>a; all triples of a 50-value zero-crossing/adjacent-century sub-lattice through the transitivity checks; sort from four permutations; lattice x 9 units for the Unit comparisons. x == -x within one century is a counted don't-care (documented).",
    note="Trusted: from_parts/to_parts (C02). Equality between exact negations below one century is not judged (the statement allows it).",
    ref="DESIGN.md §4 C03"),
+ "C05": dict(
+   technique="bounded explicit-state model checking: exhaustive enumeration of epoch lattice x all 36 ordered scale pairs through the real conversions, plus stateright BFS over every sequence of conversions up to depth 3/4, co-simulated with a one-subtraction reference model whose zero points are derived from civil dates",
+   text="For every instant of the epoch lattice (both signs, century boundaries, every scale's zero, year 0001/9999, leap second instants) and every ordered pair of the six uniform scales the real to_time_scale / to_duration_in_time_scale / named accessor / named constructor / round trip are compared to the nanosecond with count + zero(src) - zero(dst); conversion is checked to commute with + d; all duplicated public constants are compared with the derived value; the zero date of every scale is rendered and rebuilt; a stateright BFS drives every conversion sequence from 6 x ~170 (quick) / 6 x ~700 (thorough) initial states and compares implementation and model state after every step.",
+   note="Trusted: the zero points as stated in the property (civil date + offset), Hinnant's days_from_civil (self-checked against anchors and as a bijection over +-30 000 years at start-up).",
+   ref="DESIGN.md §4 C05"),
+ "C06": dict(
+   technique="bounded explicit-state model checking: exhaustive enumeration of instants round every table entry (every second -45..+85 s x 4 sub-second offsets, every nanosecond within +-300 ns / +-3 us) x directions x 34 provider configurations through the real conversions and accessors, against a table-lookup model parsed from the two shipped data files",
+   text="The built-in table (forward, reverse, indexed) and the file provider are compared entry by entry with the IERS list parsed at check time from data/leap-seconds.list and naif0012.txt (three-way agreement with a digest in the harness). UTC->TAI, TAI->UTC and the round trip are checked to the nanosecond on every lattice instant (28 IERS + 14 SOFA entries, dates before 1960/1972 and after 2017, +-10 500 years); the accessor and 34 file providers (every prefix of the list, 5 format variants) are checked absolutely on TAI-labelled epochs and relatively (file == built-in) on every scale.",
+   note="TAI instants inside an inserted interval (the leap second itself, the 10 s of 1972-01-01) have no UTC count: the value is a counted don't-care bounded by the inserted amount (the suite pins one convention). The accessor's answer for a TAI epoch between an entry's timestamp and its TAI instant is not judged.",
+   ref="DESIGN.md §4 C06"),
+ "C18": dict(
+   technique="bounded explicit-state model checking: exhaustive enumeration of a float lattice (every binade with neighbours, thresholds +-1 ulp, decimal fractions, subnormals, non-finite) x 9 units x 4 call forms and of duration lattice x float sub-lattice through the real float interop, judged by exact integer arithmetic on the decoded floats; watchdog for the no-hang clause",
+   text="unit x float in four call forms over ~3 300 (quick) / ~17 000 (thorough) floats x 9 units is compared exactly with clamp(trunc(fl(x*f))) computed on the decoded mantissa/exponent; to_seconds/to_unit are compared with the correctly rounded exact rational within 8 ulp (measured worst case reported) and checked monotone along the sorted lattice; Duration*f64 (both orders) must lie within 1 ns + 4 ulp of the exact dyadic product; compose_f64 is checked against the saturating sum of its terms; a watchdog turns a case that does not return within 10/30 s into a violation.",
+   note="Trusted: IEEE-754 double multiplication for the one product the statement prescribes; from_parts/to_parts (C02). Known finding D1 (reader below -1 century) matched by defect model.",
+   ref="DESIGN.md §4 C18"),
  "C14": dict(
    technique="bounded explicit-state model checking: exhaustive enumeration of duration lattice x step lattice (both signs) and epoch lattice x steps x 9 scales through the real floor/ceil/round/approx, plus stateright BFS over chains of these operations, against a div_euclid reference model",
    text="Every (duration, step) pair of the lattices (steps 1 ns .. centuries .. MAX of both signs, and 0) and every (scale, count within +-100 centuries, step) triple is run through the real floor/ceil/round (and approx) and compared with the div_euclid model on the i128 count, including the side conditions floor <= d < ceil; a stateright BFS chains the operations from non-initial states and checks idempotence.",
